@@ -58,6 +58,71 @@ theorem htlc_translated_pinned : Irismod.Gen.PureHtlc.translated =
      "UpdateWindow_supply_TimeElapsed_1(newTimeElapsed)",
      "UpdateWindow_supply_TimeElapsed_2()"] := rfl
 
+/-- every rejecting guard (an `if` ending in the return of an error, or in a panic) of the translated functions and of
+the handlers around them, as source text in source order: removing, weakening or reordering one breaks this -/
+theorem htlc_guards_pinned : Irismod.Gen.PureHtlc.guards =
+    ["IncCurrent: !found",
+     "IncCurrent: limit, err := k.GetSupplyLimit(ctx, coin.Denom); err != nil",
+     "IncCurrent: supplyLimit.IsLT(supply.CurrentSupply.Add(coin))",
+     "IncCurrent: timeBasedSupplyLimit.IsLT(supply.TimeLimitedCurrentSupply.Add(coin))",
+     "DecCurrent: !found",
+     "DecCurrent: supply.CurrentSupply.Amount.Sub(coin.Amount).IsNegative()",
+     "IncIncoming: !found",
+     "IncIncoming: limit, err := k.GetSupplyLimit(ctx, coin.Denom); err != nil",
+     "IncIncoming: supplyLimit.IsLT(totalSupply.Add(coin))",
+     "IncIncoming: timeBasedSupplyLimit.IsLT(timeLimitedTotalSupply.Add(coin))",
+     "DecIncoming: !found",
+     "DecIncoming: supply.IncomingSupply.Amount.Sub(coin.Amount).IsNegative()",
+     "IncOutgoing: !found",
+     "IncOutgoing: supply.CurrentSupply.IsLT(supply.OutgoingSupply.Add(coin))",
+     "DecOutgoing: !found",
+     "DecOutgoing: supply.OutgoingSupply.Amount.Sub(coin.Amount).IsNegative()",
+     "createHTLT: len(amount) != 1",
+     "createHTLT: asset, err := k.GetAsset(ctx, amount[0].Denom); err != nil",
+     "createHTLT: err = k.ValidateLiveAsset(ctx, amount[0]); err != nil",
+     "createHTLT: amount[0].Amount.LT(asset.MinSwapAmount) || amount[0].Amount.GT(asset.MaxSwapAmount)",
+     "createHTLT: timestamp < uint64(pastTimestampLimit) || timestamp >= uint64(futureTimestampLimit)",
+     "createHTLT: to.Equals(deputyAddress)",
+     "createHTLT: !to.Equals(deputyAddress)",
+     "createHTLT: err := k.IncrementIncomingAssetSupply(ctx, amount[0]); err != nil",
+     "createHTLT: timeLock < asset.MinBlockLock || timeLock > asset.MaxBlockLock",
+     "createHTLT: amount[0].Amount.LT(asset.FixedFee.Add(asset.MinSwapAmount))",
+     "createHTLT: err := k.IncrementOutgoingAssetSupply(ctx, amount[0]); err != nil",
+     "createHTLT: err := k.bankKeeper.SendCoinsFromAccountToModule(ctx, sender, types.ModuleName, amount); err != nil",
+     "claimHTLT: err := k.DecrementIncomingAssetSupply(ctx, htlc.Amount[0]); err != nil",
+     "claimHTLT: err := k.IncrementCurrentAssetSupply(ctx, htlc.Amount[0]); err != nil",
+     "claimHTLT: err := k.bankKeeper.MintCoins(ctx, types.ModuleName, htlc.Amount); err != nil",
+     "claimHTLT: err := k.bankKeeper.SendCoinsFromModuleToAccount(ctx, types.ModuleName, toAddr, htlc.Amount); err != nil",
+     "claimHTLT: err := k.DecrementOutgoingAssetSupply(ctx, htlc.Amount[0]); err != nil",
+     "claimHTLT: err := k.DecrementCurrentAssetSupply(ctx, htlc.Amount[0]); err != nil",
+     "claimHTLT: err := k.bankKeeper.BurnCoins(ctx, types.ModuleName, htlc.Amount); err != nil",
+     "refundHTLT: err := k.DecrementIncomingAssetSupply(ctx, amount[0]); err != nil",
+     "refundHTLT: err := k.DecrementOutgoingAssetSupply(ctx, amount[0]); err != nil",
+     "refundHTLT: err := k.bankKeeper.SendCoinsFromModuleToAccount(ctx, types.ModuleName, sender, amount); err != nil",
+     "Keeper.CreateHTLC: k.HasHTLC(ctx, id)",
+     "Keeper.CreateHTLC: direction, err = k.createHTLT( ctx, sender, to, receiverOnOtherChain, senderOnOtherChain, amount, hashLock, timestamp, timeLock, ); err != nil",
+     "Keeper.CreateHTLC: err = k.createHTLC(ctx, sender, amount); err != nil",
+     "Keeper.ClaimHTLC: !found",
+     "Keeper.ClaimHTLC: htlc.State != types.Open",
+     "Keeper.ClaimHTLC: !bytes.Equal(types.GetHashLock(secret, htlc.Timestamp), hashLock)",
+     "Keeper.ClaimHTLC: to, err := sdk.AccAddressFromBech32(htlc.To); err != nil",
+     "Keeper.ClaimHTLC: err := k.claimHTLT(ctx, htlc); err != nil",
+     "Keeper.ClaimHTLC: err := k.claimHTLC(ctx, htlc.Amount, to); err != nil",
+     "Keeper.RefundHTLC: sender, err := sdk.AccAddressFromBech32(h.Sender); err != nil",
+     "Keeper.RefundHTLC: err := k.refundHTLT(ctx, h.Direction, sender, h.Amount); err != nil",
+     "Keeper.RefundHTLC: err := k.refundHTLC(ctx, sender, h.Amount); err != nil",
+     "Keeper.ValidateLiveAsset: asset, err := k.GetAsset(ctx, coin.Denom); err != nil",
+     "Keeper.ValidateLiveAsset: !asset.Active",
+     "msgServer.CreateHTLC: sender, err := sdk.AccAddressFromBech32(msg.Sender); err != nil",
+     "msgServer.CreateHTLC: to, err := sdk.AccAddressFromBech32(msg.To); err != nil",
+     "msgServer.CreateHTLC: hashLock, err := hex.DecodeString(msg.HashLock); err != nil",
+     "msgServer.CreateHTLC: m.k.blockedAddrs[to.String()]",
+     "msgServer.CreateHTLC: to.Equals(m.k.accountKeeper.GetModuleAddress(types.ModuleName))",
+     "msgServer.CreateHTLC: id, err := m.k.CreateHTLC( ctx, sender, to, msg.ReceiverOnOtherChain, msg.SenderOnOtherChain, msg.Amount, hashLock, msg.Timestamp, msg.TimeLock, msg.Transfer, ); err != nil",
+     "msgServer.ClaimHTLC: id, err := hex.DecodeString(msg.Id); err != nil",
+     "msgServer.ClaimHTLC: secret, err := hex.DecodeString(msg.Secret); err != nil",
+     "msgServer.ClaimHTLC: hashLock, transfer, direction, err := m.k.ClaimHTLC(ctx, id, secret); err != nil"] := rfl
+
 local macro "hsimp" "[" hs:ident,* "]" : tactic =>
   `(tactic| simp only [$[$hs:ident],*, decide_true, decide_false, if_true, if_false, obind_some, obind_none,
       Coin_Add_nat, Coin_IsLT_nat, Bool.not_true, Bool.not_false, Bool.true_and, Bool.false_and, Bool.and_true,
